@@ -86,6 +86,15 @@ class CallMixin:
                     break
         return self.instance_get_attr(obj, c, name, node)
 
+    def bound_method_val(self, obj, target):
+        """obj.method as a value: ONE value per (object, function) on a path - two reads of `self.m` compare equal
+        (Python: `==` on bound methods; `is` on them is not used by the code under contract)"""
+        q = target.func.qualname if isinstance(target, Closure) else getattr(target, 'qualname', str(id(target)))
+        ck = ('bmv', smt.simp(obj).get_id(), q)
+        if ck not in self.global_cache:
+            self.global_cache[ck] = self.static_val(BoundMethod(obj, target))
+        return self.global_cache[ck]
+
     def feasible_is_classobj(self, obj) -> bool:
         """cheap syntactic filter: obj is not already known to be an ordinary instance"""
         if self.known_cls.get(smt.simp(obj).get_id()) is not None or self.hint_cls.get(smt.simp(obj).get_id()) is not None:
@@ -146,7 +155,7 @@ class CallMixin:
                 return self.static_val(BoundMethod(smt.simp(Val.ref(smt.cls_of(Val.r(obj)))), self.method_target(fi)))
             if fi.kind == 'staticmethod':
                 return self.method_val(fi)
-            return self.static_val(BoundMethod(obj, self.method_target(fi)))
+            return self.bound_method_val(obj, self.method_target(fi))
         if lk is not None and lk[0] == 'class':
             return smt.mk_ref(lk[1].cid)
         return self.read_data_attr(obj, c, name, node)
